@@ -38,6 +38,7 @@ def run(ctx):
     ctx.guard(rule_e, ctx, ix)
     ctx.guard(rule_f, ctx, ix)
     ctx.guard(rule_g, ctx, ix)
+    ctx.guard(rule_h, ctx, ix)
 
 
 def family(ix):
@@ -608,3 +609,29 @@ def rule_g(ctx, ix):
     ctx.ob(R, f.construct + ' single', 'a single slice / integer is treated as a one-entry view', ok,
            detail='IndexedData._to_original_view subscripts a view that is a single slice or integer (view=slice(0, 1), view=1): '
                   'TypeError where the parent dataset answers', where=f.where)
+
+
+def rule_h(ctx, ix):
+    """A view of a categorical array shares the CATEGORIES of its parent, never its integer codes: the codes are positional, and a
+    view of the same shape can be a permutation (data[cat, (argsort,)]).  And codes are computed in C element order."""
+    R = 'C04.h'
+    ctx.describe(R, 'views of categorical arrays inherit categories only; codes are recomputed in C order', floor=3)
+    c = ix.cls('glue.utils.array.categorical_ndarray')
+    f = c.resolve_func('__array_finalize__')
+    if f is None:
+        raise AnalysisError('categorical_ndarray.__array_finalize__ vanished')
+    s_ = f.self_name
+    inherited = [st for st in ast.walk(f.node) if isinstance(st, ast.Assign) and any(
+        isinstance(t, ast.Attribute) and isinstance(t.value, ast.Name) and t.value.id == s_ and 'code' in t.attr for t in st.targets)
+        and not (isinstance(st.value, ast.Constant) and st.value.value is None)]
+    ctx.ob(R, f.construct, 'a derived array never takes over the codes of the array it was derived from', not inherited,
+           detail='categorical_ndarray.__array_finalize__ copies the cached integer codes of the parent (`%s`): a view with the shape of '
+                  'the full array but another element order (a permutation by index arrays) keeps the codes of the unpermuted array, so '
+                  'category selections and statistics on that view differ from the same view of the full result'
+                  % (norm(inherited[0]) if inherited else ''), where=f.where)
+    cats = any(isinstance(st, ast.Assign) and any(isinstance(t, ast.Attribute) and 'categor' in t.attr for t in st.targets) for st in ast.walk(f.node))
+    ctx.ob(R, f.construct + ' categories', 'a derived array shares the categories of its parent', cats,
+           detail='categorical_ndarray.__array_finalize__ no longer hands the categories on to views', where=f.where, nontrivial=False)
+    n = common.check_element_order(ctx, R, ix, ['glue.utils.array'], what='the result is reshaped in C order')
+    if n < 2:
+        raise AnalysisError('C04.h: only %d flatten / reshape calls in glue.utils.array' % n)
